@@ -81,6 +81,10 @@ var defaultStubs = map[string]string{
 	modulePath + "/modeling.validateForCheckpoint":  "noop", // reflection walk over Spec/State types (C43, n/a)
 	modulePath + "/modeling.ValidateSpec":           "noop",
 	modulePath + "/modeling.ValidateState":          "noop",
+	"regexp.MustCompile":                            "noop", // package-level patterns of the web layer; a nil *Regexp crashes if ever used
+	"regexp.Compile":                                "noop",
+	"net/http.HandleFunc":                           "noop",
+	"net/http.Handle":                               "noop",
 }
 
 func loadSpec(prop string) (*Spec, string, error) {
